@@ -119,7 +119,7 @@ PROPS["C05"] = {
     "assumptions": ["if-expressions are opaque leaves of the expression model (right-open, never unparenthesised)"],
 }
 
-SLOT_RULE = ("comment-slot enumeration: 46 constructs (every statement kind, expression kinds, Luau/5.2/5.4 forms) x every token gap x {block, multi-line block, line comment + newline} x 6 configurations = 9 954 cases, all oracles; closed and seed-independent. ")
+SLOT_RULE = ("comment-slot enumeration: 60 constructs (every statement kind, expression kinds, call chains, Luau/5.2/5.4 forms) x every token gap x 8 slot kinds (block, multi-line block, line comment + newline, their twins in CRLF, a bare line break, a blank line) x 6 configurations = 34 848 cases, all oracles; closed and seed-independent. ")
 
 PROGEN_RULE = ("ring 3 (seeded): `hx progen` - 2 500 (thorough 10 000) random programs from a grammar of the whole language (every statement kind, nested blocks, tables, functions, call sugar, strings, numbers; comments and blank lines only between statements) x 2 random configurations each, judged by the re-parse, normal-form, comment-census and panic oracles. ")
 
@@ -211,7 +211,7 @@ PROPS["C03"] = {
     "required_theorems": ["C03_load", "C03_text_line", "C03_text_block", "C03_paren_partial", "C03_sort_perm", "C03_eof_comments", "C03_semi_required", "C03_semi_removed", "C03_semi_removed_needs_newline", "C03_semi_swallow_witness", "C03_hang_binop", "C03_hang_binop_fuses_witness", "C03_field_key", "C03_field_key_name_partial", "C03_field_key_name_loses_key_trailing", "C03_end_token", "C03_punct_comma", "C03_sugar_add", "C03_sugar_drop_partial", "C03_sugar_drop_loses_paren_comments", "C03_table_field", "C03_call_arg", "C03_leading_line_safe", "C03_end_token_line_safe", "C03_moved_comments_line_safe"],
     "hx": [["c03"], ["pipe"], ["slots"], ["c12"], ["progen"]],
     "level": "proof",
-    "level_text": "Proof, partial: load_token_trivia (through which every token's trivia passes) keeps every comment once, in order, with kind and level, text normalised only by trim_end / newline conversion (theorems for lists of any length); the parenthesis transplant carries a sublist (full preservation is proven false of the code: counterexample theorem); require sorting is a permutation; the trivia of a kept, added or dropped semicolon (format_block) carries every comment of the statement and of the semicolon once and in order - given the statement's trailing trivia ends with its newline, and with the same-line swallowing by a trailing line comment exhibited as a computed witness (D23 family); hang_binop gathers the comments around a hung operator once and in order (with the fusing of a trailing comment into a preceding line comment as a computed witness); the comments around a table field's key and `=` are all moved in front of a bracketed key, and all but those behind the key for a name key (proved partial statement + witness: D29, whose mechanism - Node::surrounding_trivia on a one-token node - the correspondence exposed); format_end_token keeps every comment in front of a closing token while removing the blank lines; the leading trivia of every formatted token, and of a closing token after that removal, is line-safe (no line comment in it can swallow the token: `C03_leading_line_safe`, `C03_end_token_line_safe`). That every construct routes every token through these functions is carried by the comment-slot enumeration (every token gap of 46 constructs) and the corpus census, whose unchanged-tree failures are listed exactly.",
+    "level_text": "Proof, partial: load_token_trivia (through which every token's trivia passes) keeps every comment once, in order, with kind and level, text normalised only by trim_end / newline conversion (theorems for lists of any length); the parenthesis transplant carries a sublist (full preservation is proven false of the code: counterexample theorem); require sorting is a permutation; the trivia of a kept, added or dropped semicolon (format_block) carries every comment of the statement and of the semicolon once and in order - given the statement's trailing trivia ends with its newline, and with the same-line swallowing by a trailing line comment exhibited as a computed witness (D23 family); hang_binop gathers the comments around a hung operator once and in order (with the fusing of a trailing comment into a preceding line comment as a computed witness); the comments around a table field's key and `=` are all moved in front of a bracketed key, and all but those behind the key for a name key (proved partial statement + witness: D29, whose mechanism - Node::surrounding_trivia on a one-token node - the correspondence exposed); format_end_token keeps every comment in front of a closing token while removing the blank lines; the leading trivia of every formatted token, and of a closing token after that removal, is line-safe (no line comment in it can swallow the token: `C03_leading_line_safe`, `C03_end_token_line_safe`). That every construct routes every token through these functions is carried by the comment-slot enumeration (every token gap of 60 constructs) and the corpus census, whose unchanged-tree failures are listed exactly.",
     "level_note": "Trusted: Lean kernel; Model/Trivia.lean tied by the `trivia` correspondence (~1.4e4 requests per run), Model/Semi.lean by the `semi` correspondence (the bytes between a statement and its successor, for 6 statement kinds x comments before / after the semicolon x required or not x both line endings; ~3e3 distinct requests); census oracle uses full_moon's tokenizer on input and output. Model/HangOp.lean (hang_binop: comments in front of / behind a hung operator and in front of its right operand) by the `hangop` correspondence (6 operators x 0-2 comments per slot x nesting x both line endings; ~4e3 distinct requests, bytes between the operands). Model/HangOp.lean `FieldKey` (comments around a table field's key and `=`; name and bracketed keys) by the `fieldkey` correspondence (~4e3 distinct requests, bytes in front of the key). Model/EndToken.lean (format_end_token: comments and blank lines in front of `end` / a closing token of do, while, for, function and if blocks) by the `endtoken` correspondence (~3e3 distinct requests). Model/HangOp.lean `Punct` (format_punctuated_multiline: the comma of a one-value-per-line list in `return` and local assignments) by the `punct` correspondence (~4e3 distinct requests). Model/HangOp.lean `Sugar` (parentheses dropped / added around a single string or empty-table argument; D5 as proved partial statement + witness) by the `sugar` correspondence (~2e3 distinct requests). Model/HangOp.lean `TableField` (what follows a field's value in a multi-line table: block comments stay, line comments move behind the written or added separator) by the `tablefield` correspondence (~2e3 distinct requests). Model/HangOp.lean `CallArg` (format_contained_punctuated_multiline: what follows an argument of a multi-line argument list) by the `callarg` correspondence (~1.6e3 distinct requests). Remaining unmodelled transplant sites: function parameter lists with type annotations, Luau type lists, non-empty table arguments' inner trivia: they are covered by ring 3 only.",
     "technique": "Lean 4 proofs on the trivia loader and on nine comment-transplant sites (models tied byte-for-byte by correspondence) + comment-slot enumeration + census oracle",
     "rule": TRIVIA_RULE + PIPE_RULE + SLOT_RULE,
